@@ -252,3 +252,46 @@ contract("verif.harness.ecc.xonly_then_parse", props=("C03",), nl_uf=True,
          ensures=["returns()", "result[0] == spec.curve.x_of(pub)", "result[1] % 2 == 0",
                   "result[1] == (spec.curve.y_of(pub) if spec.curve.has_even_y(pub) else spec.curve.P - spec.curve.y_of(pub))"],
          gen=lambda rng, tier: ({"pub": x["pub"]} for x in _gen_pub(rng, tier)))
+
+
+# ---------------------------------------------------------------------------- C03.4 double-and-add in an abstract group
+def _group_setup(m, env):
+    """self is an arbitrary element of the (abstract, commutative) point group"""
+    import z3
+    from verif.pyvc import fieldmode as fm
+    fm.install_group(m)
+    env["self"] = fm.gpoint(m, z3.Const("g_self", fm.GS))
+    from verif.pyvc.values import HObj
+    # a, b are only passed through to the constructor of the point at infinity
+    m.p.deref(env["self"]).fields["a"] = None
+    m.p.deref(env["self"]).fields["b"] = None
+
+
+class _GroupSetup:
+    def __call__(self, m, env):
+        _group_setup(m, env)
+
+    def conc(self, env, glob):
+        pass
+
+
+def _gen_rmul(rng, tier):
+    from buidl.pecc import FieldElement, Point
+    for p, (x, y) in ((223, (47, 71)), (223, (192, 105)), (11, (5, 0))):
+        for k in (0, 1, 2, 3, 7, 8, 21, 100):
+            yield {"self": {"__class__": "buidl.pecc.Point", "fields": {
+                "x": {"__class__": "buidl.pecc.FieldElement", "fields": {"num": x, "prime": p}},
+                "y": {"__class__": "buidl.pecc.FieldElement", "fields": {"num": y, "prime": p}},
+                "a": {"__class__": "buidl.pecc.FieldElement", "fields": {"num": 0, "prime": p}},
+                "b": {"__class__": "buidl.pecc.FieldElement", "fields": {"num": 7, "prime": p}}}}, "coefficient": k}
+
+
+contract("buidl.pecc.Point.__rmul__", props=("C03",),
+         params={"coefficient": "nat"}, setup=_GroupSetup(), args=["self", "coefficient"],
+         ensures=["returns()", "spec.group.eq(result, spec.group.nsmul(coefficient, self))"],
+         invariants={1: {"inv": ["coef >= 0",
+                                 "spec.group.binary_step(coef, current, result)",
+                                 "spec.group.eq(spec.group.add(result, spec.group.nsmul(coef, current)), spec.group.nsmul(coefficient, self))"],
+                         "types": {"result": lambda m, n: __import__("verif.pyvc.fieldmode", fromlist=["x"]).gpoint(m, __import__("z3").Const("g_" + n + str(m.p.fresh_n), __import__("verif.pyvc.fieldmode", fromlist=["x"]).GS)),
+                                   "current": lambda m, n: __import__("verif.pyvc.fieldmode", fromlist=["x"]).gpoint(m, __import__("z3").Const("g_" + n + str(m.p.fresh_n), __import__("verif.pyvc.fieldmode", fromlist=["x"]).GS))}}},
+         gen=_gen_rmul)
